@@ -163,6 +163,11 @@ type c09World struct {
 	sealedBy  map[uint64]common.Address // height -> sealer of the accepted header
 	startH    uint64
 	lastEpoch [][]byte   // validator list carried by the last accepted epoch header
+	presVals  [][]byte   // the validator list the RULE prescribes now (harness bookkeeping, never read from the client)
+	prevVals  [][]byte   // the prescribed list before the last switch
+	switchAt  uint64     // height of the last prescribed switch
+	tp        uint64
+	maxN      int        // largest prescribed set so far (bounds every recents window of this history)
 	rawAfter    map[uint64]int  // number of distinct validators in force after height h was accepted
 	consPresent map[uint64]bool // consensus state of height h still stored just before the current op
 }
@@ -184,6 +189,7 @@ func (w *c09World) reset() {
 	w.rawAfter = map[uint64]int{}
 	w.consPresent = map[uint64]bool{}
 	w.lastEpoch = nil
+	w.presVals, w.prevVals, w.switchAt, w.maxN = nil, nil, 0, 0
 }
 
 func (w *c09World) store(ctx sdk.Context) sdk.KVStore {
@@ -394,6 +400,7 @@ func (w *c09World) apply(r *Rec, op string) string {
 			w.sealedBy[h.Height.RevisionHeight] = a
 		}
 		w.lastEpoch, _ = bsctypes.ParseValidators(h.Extra)
+		w.presVals, w.prevVals, w.tp, w.maxN = vals, nil, tp, len(c09Distinct(vals))
 		w.rawAfter[h.Height.RevisionHeight] = len(c09Distinct(vals))
 		return w.dump(w.ctx, h)
 	case "update":
@@ -404,9 +411,22 @@ func (w *c09World) apply(r *Rec, op string) string {
 		for _, c := range w.consStates(w.ctx) {
 			w.consPresent[c.num] = true
 		}
+		whyNot := w.invalidBecause(h, bt) // the rule's own verdict, before the code is asked
 		cctx, write := w.ctx.WithBlockTime(time.Unix(int64(bt), 0)).CacheContext()
 		var err error
 		pan, _ := safely(func() { err = k.UpdateClient(cctx, c09Chain, h) })
+		if (pan || err != nil) && whyNot == "" {
+			r.Count("oracle.valid-header-refused")
+			mech := "member-of-prescribed-set"
+			if before != nil && !c09Distinct(before.Validators)[common.BytesToAddress(h.Coinbase)] {
+				mech = "sealer-missing-from-client-set"
+			}
+			w.find(r, "C09:valid-header-refused:"+mech, "a header that is the valid next block, sealed in its turn-difficulty by an eligible member of the prescribed validator set, was refused",
+				fmt.Sprintf("refused (err=%v panic=%v)", err, pan), "accepted")
+		}
+		if whyNot == "" {
+			r.Count("oracle.valid-by-rule")
+		}
 		if pan {
 			r.Count("update.panic")
 			return "panic"
@@ -517,9 +537,97 @@ func (w *c09World) oracle(r *Rec, before *bsctypes.ClientState, h *bsctypes.Head
 			w.find(r, "C09:valset-not-from-epoch-header", "new validator set is not the list carried by the last epoch header", c09List(after.Validators), c09List(w.lastEpoch))
 		}
 	}
+	// ---- the valset clause on the harness' own bookkeeping (independent of what the client stores):
+	// the list carried by the last accepted epoch header applies from offset floor(N_old/2) after it
+	// (offset 0 => from the epoch header itself), the previous list before.
+	if !c09Distinct(w.presVals)[signer] {
+		w.find(r, "C09:accepted-sealer-not-in-prescribed-set", "sealer is not a member of the validator set the rule prescribes at this height",
+			signer.Hex(), c09List(w.presVals))
+	}
+	if num%w.epoch == uint64(len(w.presVals)/2) {
+		oldN, newN := len(c09Distinct(w.presVals)), len(c09Distinct(w.lastEpoch))
+		if !c09SameList(w.presVals, w.lastEpoch) {
+			r.Count("valset.switch")
+			if len(w.presVals)/2 == 0 {
+				r.Count("valset.switch-at-offset-0")
+			}
+			switch {
+			case oldN == 1 && newN == 1:
+				r.Count("valset.handover.1to1")
+			case oldN == 1:
+				r.Count("valset.handover.1toN")
+			case newN == 1:
+				r.Count("valset.handover.Nto1")
+			}
+			w.prevVals, w.switchAt = w.presVals, num
+		}
+		w.presVals = w.lastEpoch
+		if newN > w.maxN {
+			w.maxN = newN
+		}
+	}
+	if !c09SameList(after.Validators, w.presVals) {
+		mech := "offset>0"
+		if num%w.epoch == 0 {
+			mech = "at-epoch-header"
+		}
+		w.find(r, "C09:valset-differs-from-rule:"+mech, "after an accepted header the client's validator set is not the one the rule prescribes",
+			c09List(after.Validators), c09List(w.presVals))
+	}
 	w.sealedBy[num] = signer
 	w.rawAfter[num] = len(c09Distinct(after.Validators))
 	w.head = h
+}
+
+// invalidBecause evaluates the property's acceptance conditions on the harness' own bookkeeping only: ""
+// means "this is the valid next block sealed by an eligible member of the prescribed set" (so it must be
+// accepted); anything else names the first reason why the rule does not demand acceptance. It is deliberately
+// conservative on the recents clause (no sealing within the longest window this history ever had).
+func (w *c09World) invalidBecause(h *bsctypes.Header, bt uint64) string {
+	if !w.created || w.head == nil {
+		return "no-client"
+	}
+	if w.head.Time+w.tp < bt {
+		return "client-expired"
+	}
+	if w.head.Height.RevisionHeight >= 1<<62 || w.head.GasLimit >= 1<<63 {
+		return "out-of-range"
+	}
+	if h.Height.RevisionHeight != w.head.Height.RevisionHeight+1 {
+		return "number"
+	}
+	if ph := c09Hash(w.head); ph == "panic" || ph != hx(common.BytesToHash(h.ParentHash).Bytes()) {
+		return "parent-hash"
+	}
+	if len(h.Bloom) > 256 || len(h.Nonce) > 8 {
+		return "oversized"
+	}
+	if why := c09Structural(w.head, h, w.epoch); why != "" {
+		return why
+	}
+	signer, ok := c09Recover(h, w.chainID)
+	if !ok || signer != common.BytesToAddress(h.Coinbase) {
+		return "seal"
+	}
+	set := c09Distinct(w.presVals)
+	if !set[signer] {
+		return "non-member"
+	}
+	num := h.Height.RevisionHeight
+	for d := uint64(1); d <= uint64(w.maxN/2+1) && d <= num; d++ {
+		if who, known := w.sealedBy[num-d]; known && who == signer {
+			return "recent"
+		}
+	}
+	sorted := c09Sorted(set)
+	want := int64(1)
+	if sorted[num%uint64(len(sorted))] == signer {
+		want = 2
+	}
+	if new(big.Int).SetBytes(h.Difficulty).Cmp(big.NewInt(want)) != 0 {
+		return "difficulty"
+	}
+	return ""
 }
 
 // thinAfterGrowth: at some accepted height x between kh and num the set then in force was so small that
